@@ -36,25 +36,111 @@ def sim_class(repo):
     return repo.cls(M_SIM, "SimulateOde")
 
 
+def _literal_rows(expr, func):
+    """rows of a literal table (tuple/list of tuples/lists), directly or through a local name assigned once to one"""
+    if isinstance(expr, ast.Name):
+        defs = [st for st in walk_no_nested(func.node) if isinstance(st, ast.Assign) and any(isinstance(t, ast.Name) and t.id == expr.id for t in st.targets)]
+        if len(defs) != 1:
+            return None
+        expr = defs[0].value
+    if isinstance(expr, (ast.Tuple, ast.List)) and all(isinstance(r, (ast.Tuple, ast.List)) for r in expr.elts):
+        return [list(r.elts) for r in expr.elts]
+    return None
+
+
+def _add_func_sites(f):
+    """[(call node, {name: ast expr})]: add_func calls of a method, with loop variables of a loop over a literal table
+    bound row by row (registrations written as a table are the same registrations)"""
+    out = []
+
+    def visit(stmts, env_rows):
+        for st in stmts:
+            if isinstance(st, ast.For):
+                rows = _literal_rows(st.iter, f)
+                tgt = st.target
+                if rows is not None and isinstance(tgt, (ast.Tuple, ast.List)) and all(isinstance(t, ast.Name) for t in tgt.elts) \
+                        and all(len(r) == len(tgt.elts) for r in rows):
+                    new = []
+                    for env in env_rows:
+                        for r in rows:
+                            e2 = dict(env)
+                            e2.update({t.id: v for t, v in zip(tgt.elts, r)})
+                            new.append(e2)
+                    visit(st.body, new)
+                    continue
+                if rows is not None and isinstance(tgt, ast.Name):
+                    # for row in table: self.add_func(*row) / self.add_func(row[0], row[1], ...)
+                    new = []
+                    for env in env_rows:
+                        for r in rows:
+                            e2 = dict(env)
+                            e2[tgt.id] = ast.Tuple(elts=list(r), ctx=ast.Load())
+                            new.append(e2)
+                    visit(st.body, new)
+                    continue
+                visit(st.body, env_rows)
+                visit(st.orelse, env_rows)
+                continue
+            for fld in ("body", "orelse", "finalbody"):
+                sub = getattr(st, fld, None)
+                if isinstance(sub, list) and sub and isinstance(sub[0], ast.stmt) and not isinstance(st, (ast.FunctionDef, ast.ClassDef)):
+                    visit(sub, env_rows)
+            if isinstance(st, ast.Try):
+                for h in st.handlers:
+                    visit(h.body, env_rows)
+            if isinstance(st, (ast.FunctionDef, ast.ClassDef, ast.For, ast.While, ast.If, ast.With, ast.Try)):
+                if not isinstance(st, (ast.If, ast.While, ast.With, ast.Try)):
+                    continue
+                # calls in the test / items are not registrations
+                continue
+            for n in walk_no_nested(st):
+                if isinstance(n, ast.Call) and is_self_attr(n.func, "add_func"):
+                    for env in env_rows:
+                        out.append((n, env))
+    visit(f.node.body, [{}])
+    return out
+
+
+def _subst(expr, env):
+    if isinstance(expr, ast.Name) and expr.id in env:
+        return env[expr.id]
+    if isinstance(expr, ast.Subscript) and isinstance(expr.value, ast.Name) and expr.value.id in env \
+            and isinstance(env[expr.value.id], ast.Tuple) and isinstance(const_value(expr.slice), int):
+        return env[expr.value.id].elts[const_value(expr.slice)]
+    return expr
+
+
 def registry(repo):
-    """literal self.add_func("<name>", self.<generator>, oT=..., is_master_canary=...)
-    call sites in the methods of SimulateOde's MRO"""
+    """self.add_func("<name>", self.<generator>, oT=..., is_master_canary=...) registrations in the methods of
+    SimulateOde's MRO: literal call sites, or calls inside a loop over a literal table"""
     sim = sim_class(repo)
     regs = []
     for c in repo.mro(sim):
         for f in c.methods.values():
-            for n in walk_no_nested(f.node):
-                if isinstance(n, ast.Call) and is_self_attr(n.func, "add_func"):
-                    name = const_value(kwarg(n, "method_name", 0))
-                    g = kwarg(n, "sympy_obj_generator_func", 1)
+            for n, env in _add_func_sites(f):
+                    args = list(n.args)
+                    if len(args) == 1 and isinstance(args[0], ast.Starred):
+                        star = _subst(args[0].value, env)
+                        if isinstance(star, ast.Tuple):
+                            args = list(star.elts)
+
+                    def kw_(name, pos):
+                        for k in n.keywords:
+                            if k.arg == name:
+                                return _subst(k.value, env)
+                        if pos < len(args) and not isinstance(args[pos], ast.Starred):
+                            return _subst(args[pos], env)
+                        return None
+                    name = const_value(kw_("method_name", 0))
+                    g = kw_("sympy_obj_generator_func", 1)
                     if not isinstance(name, str) or not is_self_attr(g):
                         raise AnalysisError("add_func call with non-literal name / generator at %s:%d"
                                             % (f.module.rel, n.lineno))
-                    oT = kwarg(n, "oT", 2)
+                    oT = kw_("oT", 2)
                     oTv = const_value(oT) if oT is not None else None
                     if oT is not None and not (isinstance(oT, ast.Constant)):
                         raise AnalysisError("add_func oT is not a literal at %s:%d" % (f.module.rel, n.lineno))
-                    master = const_value(kwarg(n, "is_master_canary", 3), False)
+                    master = const_value(kw_("is_master_canary", 3), False)
                     gen = repo.resolve_method(sim, g.attr)
                     if gen is None:
                         raise AnalysisError("generator %s not found" % g.attr)
